@@ -324,7 +324,8 @@ def handlers(emit, repo):
         pr = job["probs"]
         scratch = tempfile.mkdtemp(prefix="verif_rob_")
         cwd = os.getcwd()
-        ev = {"e": "Roborta", "keys": [], "loaderr": "", "games": [], "exact": [], "raw": [], "outcomes": []}
+        ev = {"e": "Roborta", "keys": [], "loaderr": "", "games": [], "exact": [], "raw": [], "outcomes": [],
+              "created": []}
         try:
             os.makedirs(os.path.join(scratch, "inputs"))
             os.chdir(scratch)
@@ -339,6 +340,7 @@ def handlers(emit, repo):
                         sg.create_sg_from_board(b["moves"], b["rewards"], b["loose"], pr["rb"] / 1e6,
                                                 pr["lb"] / 1e6, pr["tb"] / 1e6)
                     new = sorted(set(listing(scratch)) - before)
+                    ev["created"] = new            # C17: the manual entry point names its file after the board
                     path = new[0] if len(new) == 1 else path
                 else:
                     rg.write_robots(path, b["L"], b["W"], b["moves"], b["rewards"], b["loose"],
@@ -420,6 +422,10 @@ def handlers(emit, repo):
                     loose.append([1 if t[2] == "X" else 0 for t in tiles])
         return {"moves": moves, "rewards": rewards, "loose": loose}
 
+    def seed_of(p):
+        """Seeds beyond 32 bits travel as decimal text (field seedtxt): TLC integers are 32 bit."""
+        return int(p["seedtxt"]) if "seedtxt" in p else p["seed"]
+
     def job_generator(job):
         import shutil
         import subprocess
@@ -435,14 +441,14 @@ def handlers(emit, repo):
                 p = op["p"]
                 if op["e"] == "Check":
                     try:
-                        rg.check_input(p["seed"], p["width"], p["length"], pval(p["rb"]), pval(p["lb"]),
+                        rg.check_input(seed_of(p), p["width"], p["length"], pval(p["rb"]), pval(p["lb"]),
                                        pval(p["lt"]), pval(p["tb"]), p["maxr"])
                         emit({"e": "Check", "p": p, "ok": True, "etype": ""})
                     except Exception as exc:
                         emit({"e": "Check", "p": p, "ok": False, "etype": type(exc).__name__})
                 elif op["e"] in ("GenCall", "Freq"):
                     try:
-                        m, r, lo = rg.gen_rnd_board(p["seed"], p["length"], p["width"], pval(p["lt"]), p["maxr"], p["fd"])
+                        m, r, lo = rg.gen_rnd_board(seed_of(p), p["length"], p["width"], pval(p["lt"]), p["maxr"], p["fd"])
                         emit({"e": op["e"], "p": p, "ok": True, "etype": "", "board": board_obs(m, r, lo)})
                     except Exception as exc:
                         emit({"e": op["e"], "p": p, "ok": False, "etype": type(exc).__name__,
@@ -455,7 +461,7 @@ def handlers(emit, repo):
                         os.makedirs(os.path.join(scratch, "inputs"))
                     before = listing(scratch)
                     args = [sys.executable, os.path.join(repo, "roberta_generator.py"),
-                            "--seed", str(p["seed"]), "--width", str(p["width"]), "--length", str(p["length"]),
+                            "--seed", str(seed_of(p)), "--width", str(p["width"]), "--length", str(p["length"]),
                             "--max_reward", str(p["maxr"]), "-p", repr(pval(p["rb"])), "-q", repr(pval(p["lb"])),
                             "-r", repr(pval(p["tb"])), "-t", repr(pval(p["lt"]))] + (["--force_down"] if p["fd"] else [])
                     class _R:
